@@ -1,6 +1,6 @@
 """C19 — kernel property: see DESIGN.md section 5 and harness/kprop.py.
 
-Four parts (all run by `run`):
+Six parts (all run by `run`):
  1. kernel correspondence + views oracle (harness/kprop.py, koracle.c19_views) on the feature templates of kgen;
  2. `meta_views`: class-graph edit histories, every view against Model/MetaViews.v and an independent closure;
  3. `subtree_scenarios` (implementation only, PRNG stream 'C19:subtrees'): random class hierarchies in which
@@ -25,6 +25,26 @@ Four parts (all run by `run`):
     pick different declarations (a name redeclared in a non-first branch of a diamond) the unchanged code
     disagrees with itself: known finding F-C19-find-vs-mro (signature linearisations='differ'); everywhere
     else (linearisations='agree') the views must agree.
+ 5. `generic_scenarios` (implementation only, PRNG stream 'C19:generic'): class graphs that mix the two inheritance
+    channels, eSuperTypes and eGenericSuperTypes (EGenericType appended with its eClassifier already set, or set
+    afterwards; removed, popped, re-targeted), at several levels and edited at run time.  "Own plus inherited" is the
+    reflexive-transitive closure over BOTH channels (that is what _eAllStructuralFeatures_gen and the bases of the
+    Python class follow).  After every edit, for every class: eAllStructuralFeatures / eAllSuperTypes = that closure,
+    each once; eAllReferences and eAllAttributes partition set(eAllStructuralFeatures) by kind; findEStructuralFeature
+    and dir() of an instance name exactly those features; isinstance of instances created before and after the edit
+    says exactly that closure.  Instance side: trees are built through containment references inherited through
+    either channel; eContents / eAllContents / eRoot of every object are compared with the children read from the
+    containment slots of all features the instance has, once following the generator's description (attribute
+    syntax) and once following the instance's own eAllStructuralFeatures() (eGet by feature object).  Instances are
+    kept across additive edits only (what a touched instance keeps after a removal is C12's F-C12-stale-slot).
+    (fix bce9cae in /repo made the unchanged code satisfy this: see known_findings.json 'fixed'.)
+ 6. `container_scenarios` (PRNG stream 'C19:containers'): single-valued attributes whose value is a mutable
+    container made per instance (EStringToStringMapEntry, EFeatureMapEntry, java.util.List/Map data types,
+    type_as_factory data types, a list parsed from a default literal; type list of harness/props/c15.py), declared
+    on the class or on a super type, also added at run time, on instances created before and after the edit:
+    attribute syntax, eGet(name) and eGet(feature object) must return ONE object, twice in a row, before any write,
+    after in-place mutation through any one path (seen through the two others), after assignment through any write
+    path (attribute, eSet by name, eSet by feature) and after del.
 """
 from harness import kgen, kprop
 
@@ -48,7 +68,8 @@ def replay(ctx, rep):
         print('not reproduced')
         return 0
     if case.get('scenario'):
-        return common.scenario_replay(ctx, rep, {'subtrees': subtree_scenarios})
+        return common.scenario_replay(ctx, rep, {'subtrees': subtree_scenarios, 'generic': generic_scenarios,
+                                                 'containers': container_scenarios})
     r = krun.Run(case, ['C19']).run()
     for s in r.steps:
         print(s['op'], '->', s['outcome'])
@@ -875,6 +896,595 @@ def metaclash_script(case, only_lin=None):
     return bad > 0
 
 
+# ---------------- 5. eSuperTypes and eGenericSuperTypes mixed ----------------
+def generic_scenarios(ctx, out):
+    """see the module docstring, part 5"""
+    from harness import common
+    common.use_repo()
+    from pyecore import ecore as E
+    rng = common.rng_for(ctx.seed, 'C19:generic')
+    n = 400 if ctx.tier != 'thorough' else 5000
+    st = {'graphs': 0, 'edits': 0, 'class_views': 0, 'object_views': 0, 'mixed_chain_views': 0, 'generic_edits': 0,
+          'children_in_slot_inherited_through_generic': 0, 'isinstance_checks': 0, 'raised': 0, 'inst_ops': 0}
+    sample = None
+    for gi in range(n):
+        ncls = rng.randrange(3, 7)
+        K = [E.EClass(f'K{i}') for i in range(ncls)]
+        sup = {i: [] for i in range(ncls)}
+        gen = {i: [] for i in range(ncls)}          # [target, EGenericType]
+        own = {i: [] for i in range(ncls)}          # dicts name ref containment many target (+ 'obj' kept apart)
+        fobj = {}
+        nextf = [0]
+        hist = [['graph', gi, ncls]]
+        objs, ocls = [], []
+        state = {'ok': True}
+
+        def both(c, s=None, g=None):
+            return list((s or sup)[c]) + [t for (t, _) in (g or gen)[c]]
+
+        def closure(c):
+            seen, todo = [], both(c)
+            while todo:
+                d = todo.pop(0)
+                if d not in seen:
+                    seen.append(d)
+                    todo += both(d)
+            return seen
+
+        def via_generic(c, d):
+            """is d inherited by c only along paths that use a generic edge?"""
+            seen, todo = set(), list(sup[c])
+            while todo:
+                e = todo.pop()
+                if e not in seen:
+                    seen.add(e)
+                    todo += sup[e]
+            return d not in seen and d != c
+
+        def feats_of(c):
+            return [f for d in [c] + closure(c) for f in own[d]]
+
+        def acceptable(c, d, channel):
+            if d == c or d in both(c) or c in closure(d) or c == d:
+                return False
+            trial = {k: both(k) for k in range(ncls)}
+            trial[c] = (sup[c] + [d] + [t for (t, _) in gen[c]]) if channel == 'plain' else both(c) + [d]
+            return _plain_mro(trial, ncls) is not None      # Python must accept the bases (C12's subject otherwise)
+
+        def add_feature(c):
+            fid = nextf[0]
+            nextf[0] += 1
+            isref = rng.random() < 0.7
+            f = {'name': ('r' if isref else 'a') + str(fid), 'ref': isref, 'containment': isref and rng.random() < 0.75,
+                 'many': rng.random() < 0.6, 'target': rng.randrange(ncls)}
+            if isref:
+                o = E.EReference(f['name'], K[f['target']], upper=-1 if f['many'] else 1, containment=f['containment'])
+            else:
+                f['many'] = False
+                o = E.EAttribute(f['name'], E.EString)
+            K[c].eStructuralFeatures.append(o)
+            own[c].append(f)
+            fobj[f['name']] = o
+            hist.append(['add-feature', c, dict(f)])
+
+        def reset():
+            if objs:
+                del objs[:], ocls[:]
+                hist.append(['forget-instances'])
+
+        def idx(o):
+            for i, p in enumerate(objs):
+                if p is o:
+                    return i
+            return repr(o)
+
+        def fail(clause, what, c=None):
+            case = {'scenario': 'generic', 'seed': ctx.seed, 'tier': ctx.tier, 'history': [list(h) for h in hist]}
+            out.fail({'property': 'C19', 'clause': clause, 'scenario': 'generic'},
+                     what + f' (eSuperTypes {sup}, eGenericSuperTypes { {k: [t for (t, _) in v] for k, v in gen.items()} }) after {hist[-1]}', case)
+            state['ok'] = False
+
+        def check_meta():
+            cid = {id(k): i for i, k in enumerate(K)}
+            fname_of = {id(o): nm for nm, o in fobj.items()}
+            for c in range(ncls):
+                ec = K[c]
+                st['class_views'] += 1
+                anc = closure(c)
+                if any(gen[d] for d in anc) and sup[c]:
+                    st['mixed_chain_views'] += 1
+                want = sorted(f['name'] for f in feats_of(c))
+                wrefs = sorted(f['name'] for f in feats_of(c) if f['ref'])
+                wattrs = sorted(f['name'] for f in feats_of(c) if not f['ref'])
+                try:
+                    allf = [fname_of.get(id(x), repr(x)) for x in ec.eAllStructuralFeatures()]
+                    refs = [fname_of.get(id(x), repr(x)) for x in ec.eAllReferences()]
+                    attrs = [fname_of.get(id(x), repr(x)) for x in ec.eAllAttributes()]
+                    sups = [cid.get(id(x), repr(x)) for x in ec.eAllSuperTypes()]
+                    found = {nm: fname_of.get(id(ec.findEStructuralFeature(nm))) for nm in list(fobj) + ['nope']}
+                except Exception as e:  # noqa
+                    return fail('meta-view-raises', f'a view of K{c} raised {type(e).__name__}: {e}')
+                if sorted(allf) != want:
+                    return fail('meta-eAllStructuralFeatures', f'K{c}.eAllStructuralFeatures() = {allf}, own+inherited declarations: {want}')
+                if sorted(refs) != wrefs:
+                    return fail('meta-eAllReferences', f'K{c}.eAllReferences() = {sorted(refs)} but the references among '
+                                                       f'eAllStructuralFeatures() / own+inherited are {wrefs}')
+                if sorted(attrs) != wattrs:
+                    return fail('meta-eAllAttributes', f'K{c}.eAllAttributes() = {sorted(attrs)} but the attributes among '
+                                                       f'eAllStructuralFeatures() / own+inherited are {wattrs}')
+                if sorted(map(str, sups)) != sorted(map(str, anc)):
+                    return fail('meta-eAllSuperTypes', f'K{c}.eAllSuperTypes() = {sups}, classes it inherits from: {sorted(anc)}')
+                for nm, got in found.items():
+                    if got != (nm if nm in want else None):
+                        return fail('meta-findEStructuralFeature', f'K{c}.findEStructuralFeature({nm!r}) gives {got}; own+inherited: {want}')
+                # what instances say: a fresh one, and those created before the edit
+                try:
+                    fresh = ec()
+                except Exception as e:  # noqa
+                    return fail('meta-instance', f'K{c}() raised {type(e).__name__}: {e}')
+                for who, o in [('a new instance', fresh)] + [(f'obj{i} (created earlier)', p) for i, p in enumerate(objs) if ocls[i] == c]:
+                    st['isinstance_checks'] += 1
+                    isa = sorted(d for d in range(ncls) if d != c and isinstance(o, K[d].python_class))
+                    isa2 = sorted(d for d in range(ncls) if d != c and isinstance(o, K[d]))
+                    if isa != sorted(anc) or isa2 != sorted(anc):
+                        return fail('meta-isinstance', f'{who} of K{c} is an instance of {isa} (python classes) / {isa2} (EClasses) '
+                                                       f'but K{c} inherits from {sorted(anc)}')
+                    names = sorted(x for x in dir(o))
+                    if names != want:
+                        return fail('meta-dir', f'dir({who} of K{c}) = {names}, own+inherited features: {want}')
+                    for nm in want:
+                        try:
+                            a, b, c3 = getattr(o, nm), o.eGet(nm), o.eGet(fobj[nm])
+                        except Exception as e:  # noqa
+                            return fail('meta-attribute-access', f'{who} of K{c}: reading {nm!r} raised {type(e).__name__}')
+                        if not (a is b and b is c3):
+                            return fail('access-paths', f'{who} of K{c}: {nm!r} read through attribute syntax / eGet(name) / eGet(feature) differs')
+
+        def read_desc(x, f):
+            v = getattr(objs[x], f['name'])
+            return list(v) if f['many'] else ([] if v is None else [v])
+
+        def kids_desc(x):
+            return [(idx(v), f) for f in feats_of(ocls[x]) if f['containment'] for v in read_desc(x, f)]
+
+        def below(kids, x, seen=None):
+            seen = set() if seen is None else seen
+            res = []
+            for (c, _) in kids[x]:
+                if c in seen or not isinstance(c, int):
+                    continue
+                seen.add(c)
+                res.append(c)
+                res += below(kids, c, seen)
+            return res
+
+        def check_inst():
+            kids = {x: kids_desc(x) for x in range(len(objs))}
+            parent = {c: (x, f) for x in kids for (c, f) in kids[x] if isinstance(c, int)}
+            for x, o in enumerate(objs):
+                st['object_views'] += 1
+                want = sorted(str(c) for (c, _) in kids[x])
+                # the same, following the instance's own list of features
+                try:
+                    own_view = []
+                    for f in o.eClass.eAllStructuralFeatures():
+                        if isinstance(f, E.EReference) and f.containment:
+                            v = o.eGet(f)
+                            own_view += [idx(y) for y in (v if f.many else ([] if v is None else [v]))]
+                    got = [idx(v) for v in o.eContents]
+                    allc = [idx(v) for v in o.eAllContents()]
+                except Exception as e:  # noqa
+                    return fail('view-raises', f'a view of obj{x} (K{ocls[x]}) raised {type(e).__name__}: {e}')
+                if sorted(map(str, own_view)) != want:
+                    return fail('containment-slots', f'obj{x} (K{ocls[x]}): containment references of eClass.eAllStructuralFeatures() hold '
+                                                     f'{own_view}, those of the own+inherited declarations hold {want}')
+                if sorted(map(str, got)) != want:
+                    return fail('econtents', f'obj{x} (K{ocls[x]}).eContents = {got} but its containment references '
+                                             f'({[f["name"] for f in feats_of(ocls[x]) if f["containment"]]}) hold {want}')
+                desc = below(kids, x)
+                if sorted(map(str, allc)) != sorted(map(str, desc)) or len(set(map(str, allc))) != len(allc):
+                    return fail('eallcontents', f'obj{x} (K{ocls[x]}).eAllContents() = {allc} but the objects transitively held are {desc}')
+                end, hops = o, 0
+                while end.eContainer() is not None and hops < 100:
+                    end, hops = end.eContainer(), hops + 1
+                top, hops = x, 0
+                while top in parent and hops < 100:
+                    top, hops = parent[top][0], hops + 1
+                if o.eRoot() is not end or end is not objs[top]:
+                    return fail('eroot', f'obj{x}.eRoot() = obj{idx(o.eRoot())}, eContainer() chain ends at obj{idx(end)}, holders end at obj{top}')
+                for (c, f) in kids[x]:
+                    d = next(d for d in [ocls[x]] + closure(ocls[x]) if f in own[d])
+                    if via_generic(ocls[x], d):
+                        st['children_in_slot_inherited_through_generic'] += 1
+
+        def put(h, f, x):
+            o, v, nm = objs[h], objs[x], f['name']
+            path = rng.choice(MANY_IN if f['many'] else ONE_IN)
+            try:
+                if f['many']:
+                    coll = o.eGet(fobj[nm]) if path == 'eGet-feature.append' else o.eGet(nm) if path == 'eGet-name.append' else getattr(o, nm)
+                    if path == 'insert0':
+                        coll.insert(0, v)
+                    elif path == 'extend':
+                        coll.extend([v])
+                    elif path == 'iadd':
+                        coll += [v]
+                    else:
+                        coll.append(v)
+                elif path == 'attr':
+                    setattr(o, nm, v)
+                else:
+                    o.eSet(nm if path == 'eSet-name' else fobj[nm], v)
+                return [path, None]
+            except Exception as e:  # noqa
+                st['raised'] += 1
+                return [path, type(e).__name__]
+
+        def inst_op():
+            r = rng.random()
+            holders = [(h, f) for h in range(len(objs)) for f in feats_of(ocls[h]) if f['containment']]
+            if r < 0.25 or not holders:
+                k = rng.randrange(ncls)
+                objs.append(K[k]())
+                ocls.append(k)
+                hist.append(['new', k])
+            elif r < 0.7:
+                h, f = rng.choice(holders)
+                ks = [k for k in range(ncls) if f['target'] == k or f['target'] in closure(k)]
+                k = rng.choice(ks)
+                objs.append(K[k]())
+                ocls.append(k)
+                hist.append(['new-child', h, f['name'], k] + put(h, f, len(objs) - 1))
+            elif r < 0.88:
+                x = rng.randrange(len(objs))
+                kids = {y: kids_desc(y) for y in range(len(objs))}
+                sub = set(below(kids, x)) | {x}
+                cands = [(h, f) for (h, f) in holders if h not in sub and (f['target'] == ocls[x] or f['target'] in closure(ocls[x]))]
+                if not cands:
+                    return
+                h, f = rng.choice(cands)
+                hist.append(['move', x, h, f['name']] + put(h, f, x))
+            else:
+                held = [(h, f, c) for h in range(len(objs)) for (c, f) in kids_desc(h) if isinstance(c, int)]
+                if not held:
+                    return
+                h, f, c = rng.choice(held)
+                try:
+                    if f['many']:
+                        getattr(objs[h], f['name']).remove(objs[c])
+                    else:
+                        setattr(objs[h], f['name'], None)
+                except Exception:  # noqa
+                    st['raised'] += 1
+                hist.append(['take-out', h, f['name'], c])
+            st['inst_ops'] += 1
+
+        # initial graph: links through either channel, a few features
+        for i in range(ncls):
+            for j in rng.sample(range(i + 1, ncls), min(ncls - i - 1, rng.choice([0, 1, 1, 2]))):
+                ch = rng.choice(['plain', 'generic'])
+                if acceptable(i, j, ch):
+                    if ch == 'plain':
+                        K[i].eSuperTypes.append(K[j])
+                        sup[i].append(j)
+                        hist.append(['add-super', i, j])
+                    else:
+                        g = E.EGenericType(eClassifier=K[j])
+                        K[i].eGenericSuperTypes.append(g)
+                        gen[i].append([j, g])
+                        hist.append(['add-generic', i, j, 'classifier-set-before'])
+        for c in range(ncls):
+            for _ in range(rng.choice([0, 1, 1, 2])):
+                add_feature(c)
+        if not any(f['containment'] for c in own for f in own[c]):
+            add_feature(ncls - 1)
+        check_meta()
+        for step in range(rng.randrange(3, 10)):
+            if not state['ok']:
+                break
+            k = rng.choice(['add-super', 'add-generic', 'add-generic', 'remove-super', 'remove-generic', 'retarget-generic',
+                            'add-feature', 'remove-feature', 'instances', 'instances', 'instances'])
+            c = rng.randrange(ncls)
+            if k == 'instances':
+                for _ in range(rng.randrange(1, 5)):
+                    inst_op()
+                check_inst()
+                continue
+            if k == 'add-super':
+                d = rng.randrange(ncls)
+                if not acceptable(c, d, 'plain'):
+                    continue
+                K[c].eSuperTypes.append(K[d])
+                sup[c].append(d)
+                hist.append(['add-super', c, d])
+            elif k == 'add-generic':
+                d = rng.randrange(ncls)
+                if not acceptable(c, d, 'generic'):
+                    continue
+                mode = rng.choice(['classifier-set-before', 'classifier-set-after'])
+                if mode == 'classifier-set-before':
+                    g = E.EGenericType(eClassifier=K[d])
+                    K[c].eGenericSuperTypes.append(g)
+                else:
+                    g = E.EGenericType()
+                    K[c].eGenericSuperTypes.append(g)
+                    g.eClassifier = K[d]
+                gen[c].append([d, g])
+                st['generic_edits'] += 1
+                hist.append(['add-generic', c, d, mode])
+            elif k == 'remove-super':
+                if not sup[c]:
+                    continue
+                reset()
+                d = rng.choice(sup[c])
+                K[c].eSuperTypes.remove(K[d])
+                sup[c].remove(d)
+                hist.append(['remove-super', c, d])
+            elif k == 'remove-generic':
+                if not gen[c]:
+                    continue
+                reset()
+                i = rng.randrange(len(gen[c]))
+                how = rng.choice(['remove', 'pop'])
+                hist.append(['remove-generic', c, gen[c][i][0], how])
+                try:
+                    if how == 'remove':
+                        K[c].eGenericSuperTypes.remove(gen[c][i][1])
+                    else:
+                        K[c].eGenericSuperTypes.pop(i)
+                except Exception as e:  # noqa
+                    fail('meta-edit-raises', f'K{c}.eGenericSuperTypes.{how}(...) raised {type(e).__name__}: {e}')
+                    break
+                del gen[c][i]
+                st['generic_edits'] += 1
+            elif k == 'retarget-generic':
+                if not gen[c]:
+                    continue
+                i = rng.randrange(len(gen[c]))
+                old = gen[c][i]
+                d = rng.randrange(ncls)
+                gen[c].pop(i)
+                ok = acceptable(c, d, 'generic') and i == len(gen[c])       # (only the last one: keeps the order of the bases)
+                gen[c].insert(i, old)
+                if not ok:
+                    continue
+                reset()
+                hist.append(['retarget-generic', c, old[0], d])
+                try:
+                    old[1].eClassifier = K[d]
+                except Exception as e:  # noqa
+                    fail('meta-edit-raises', f'eClassifier = K{d} on a generic super type of K{c} raised {type(e).__name__}: {e}')
+                    break
+                old[0] = d
+                st['generic_edits'] += 1
+            elif k == 'add-feature':
+                add_feature(c)
+            else:
+                if not own[c]:
+                    continue
+                reset()
+                f = rng.choice(own[c])
+                K[c].eStructuralFeatures.remove(fobj.pop(f['name']))
+                own[c].remove(f)
+                hist.append(['remove-feature', c, f['name']])
+            st['edits'] += 1
+            check_meta()
+            if state['ok'] and objs:
+                check_inst()
+        st['graphs'] += 1
+        if sample is None and state['ok'] and len(hist) > 8:
+            sample = {'scenario': 'generic', 'history': [list(h) for h in hist]}
+    out.coverage['generic_graphs'] = st['graphs']
+    out.coverage['generic_edits'] = st['edits']
+    out.coverage['generic_edits_of_eGenericSuperTypes'] = st['generic_edits']
+    out.coverage['generic_class_views_checked'] = st['class_views']
+    out.coverage['generic_class_views_plain_chain_reaching_a_generic_edge'] = st['mixed_chain_views']
+    out.coverage['generic_isinstance_and_dir_checks'] = st['isinstance_checks']
+    out.coverage['generic_instance_operations'] = st['inst_ops']
+    out.coverage['generic_object_views_checked'] = st['object_views']
+    out.coverage['generic_children_in_slot_inherited_through_generic_edge'] = st['children_in_slot_inherited_through_generic']
+    out.coverage['generic_stores_refused'] = st['raised']
+    out.coverage['generic_sample'] = sample
+
+
+# ---------------- 6. attributes holding a mutable container made per instance ----------------
+CONTAINER_TYPES = ['EStringToStringMapEntry', 'EFeatureMapEntry', 'JavaList', 'JavaMap', 'FactoryList', 'FactorySet',
+                   'FactoryDict', 'PointList', 'EString']
+
+
+def _container_type(E, tn):
+    """(data type, extra arguments of EAttribute, python kind)"""
+    if tn == 'EStringToStringMapEntry':
+        return E.EStringToStringMapEntry, {}, 'dict'
+    if tn == 'EFeatureMapEntry':
+        return E.EFeatureMapEntry, {}, 'dict'
+    if tn == 'JavaList':
+        return E.EDataType('JavaList', instanceClassName='java.util.List'), {}, 'list'
+    if tn == 'JavaMap':
+        return E.EDataType('JavaMap', instanceClassName='java.util.Map'), {}, 'dict'
+    if tn == 'FactoryList':
+        return E.EDataType('FactoryList', list, type_as_factory=True), {}, 'list'
+    if tn == 'FactorySet':
+        return E.EDataType('FactorySet', set, type_as_factory=True), {}, 'set'
+    if tn == 'FactoryDict':
+        return E.EDataType('FactoryDict', dict, type_as_factory=True), {}, 'dict'
+    if tn == 'PointList':
+        return (E.EDataType('PointList', eType=list, from_string=lambda s: [int(x) for x in s.split(',')],
+                            to_string=lambda v: ','.join(str(x) for x in v)), {'defaultValueLiteral': '4,2'}, 'list')
+    return E.EString, {}, 'str'
+
+
+def container_scenarios(ctx, out):
+    """see the module docstring, part 6"""
+    from harness import common
+    common.use_repo()
+    from pyecore import ecore as E
+    rng = common.rng_for(ctx.seed, 'C19:containers')
+    n = 600 if ctx.tier != 'thorough' else 8000
+    st = {'cases': 0, 'ops': 0, 'slot_checks': 0, 'never_written_container_checks': 0, 'mutations_in_place': 0,
+          'attributes_added_at_run_time': 0, 'instances_created_after_an_edit': 0}
+    sample = None
+    for it in range(n):
+        channel = rng.choice(['plain', 'plain', 'generic', 'none'])
+        Base = E.EClass('Base')
+        A = E.EClass('A')
+        if channel == 'plain':
+            A.eSuperTypes.append(Base)
+        elif channel == 'generic':
+            A.eGenericSuperTypes.append(E.EGenericType(eClassifier=Base))
+        classes = {'Base': Base, 'A': A}
+        inherits = {'Base': ['Base'], 'A': ['A'] + (['Base'] if channel != 'none' else [])}
+        feats = []                     # dicts name type kind owner ; objects in fobj
+        fobj = {}
+        hist = [['case', it, channel]]
+        objs, ocls = [], []
+        written = set()                # (object, feature name) assigned or deleted at least once
+        tok = [0]
+        state = {'ok': True}
+
+        def add_attr(owner):
+            tn = rng.choice(CONTAINER_TYPES)
+            dt, kw, kind = _container_type(E, tn)
+            f = {'name': f'c{len(feats)}', 'type': tn, 'kind': kind, 'owner': owner}
+            o = E.EAttribute(f['name'], dt, **kw)
+            classes[owner].eStructuralFeatures.append(o)
+            feats.append(f)
+            fobj[f['name']] = o
+            hist.append(['add-attribute', owner, f['name'], tn])
+
+        def new(cn):
+            objs.append(classes[cn]())
+            ocls.append(cn)
+            hist.append(['new', cn])
+
+        def read(o, f, path):
+            nm = f['name']
+            return getattr(o, nm) if path == 'attr' else o.eGet(nm) if path == 'eGet-name' else o.eGet(fobj[nm])
+
+        def slots():
+            return [(x, f) for x in range(len(objs)) for f in feats if f['owner'] in inherits[ocls[x]]]
+
+        def fail(kind, what):
+            case = {'scenario': 'containers', 'seed': ctx.seed, 'tier': ctx.tier, 'history': [list(h) for h in hist]}
+            out.fail({'property': 'C19', 'clause': 'access-paths', 'scenario': 'containers', 'kind': kind},
+                     what + f' after {hist[-1]}', case)
+            state['ok'] = False
+
+        def check(expect=None):
+            """every slot of every instance: three read paths, twice, in a random order"""
+            for (x, f) in slots():
+                o = objs[x]
+                st['slot_checks'] += 1
+                if (x, f['name']) not in written and f['kind'] != 'str':
+                    st['never_written_container_checks'] += 1
+                order = READS[:]
+                rng.shuffle(order)
+                try:
+                    first = {p: read(o, f, p) for p in order}
+                    second = {p: read(o, f, p) for p in reversed(order)}
+                except Exception as e:  # noqa
+                    return fail('raised', f'reading obj{x}.{f["name"]} ({f["type"]}) raised {type(e).__name__}: {e}')
+                if f['kind'] == 'str':
+                    if len({repr(v) for v in list(first.values()) + list(second.values())}) != 1:
+                        return fail('value', f'obj{x}.{f["name"]}: the read paths give {first}')
+                    continue
+                ref = first[order[0]]
+                for p in order:
+                    if first[p] is not ref:
+                        return fail('identity', f'obj{x}.{f["name"]} ({f["type"]}): {order[0]} gives {ref!r} and {p} gives '
+                                                f'{"an equal but" if first[p] == ref else ""} another object {first[p]!r}')
+                    if second[p] is not first[p]:
+                        return fail('stability', f'obj{x}.{f["name"]} ({f["type"]}): two reads in a row through {p} give two objects '
+                                                 f'({first[p]!r}, {second[p]!r})')
+                if expect and expect[0] == (x, f['name']) and not all(expect[1] in first[p] for p in order):
+                    return fail('mutation-lost', f'obj{x}.{f["name"]} ({f["type"]}): {expect[1]!r} was put in place through {expect[2]} '
+                                                 f'but the paths read { {p: first[p] for p in order} }')
+
+        for _ in range(rng.randrange(1, 4)):
+            add_attr(rng.choice(inherits['A']))
+        new('A')
+        if rng.random() < 0.4:
+            new(rng.choice(['A', 'Base']))
+        if rng.random() < 0.7:
+            check()
+        edited = False
+        for step in range(rng.randrange(3, 11)):
+            if not state['ok']:
+                break
+            r = rng.random()
+            cands = [(x, f) for (x, f) in slots() if f['kind'] != 'str']
+            expect = None
+            if r < 0.4 and cands:
+                x, f = rng.choice(cands)
+                p = rng.choice(READS)
+                tok[0] += 1
+                t = tok[0] + 100
+                hist.append(['mutate-in-place', x, f['name'], p, t])
+                try:
+                    c = read(objs[x], f, p)
+                    if f['kind'] == 'dict':
+                        t = f'k{t}'
+                        c[t] = 'v'
+                    elif f['kind'] == 'list':
+                        c.append(t)
+                    else:
+                        c.add(t)
+                except Exception as e:  # noqa
+                    fail('raised', f'in-place change of obj{x}.{f["name"]} through {p} raised {type(e).__name__}: {e}')
+                    break
+                expect = ((x, f['name']), t, p)
+                st['mutations_in_place'] += 1
+            elif r < 0.55 and cands:
+                x, f = rng.choice(cands)
+                p = rng.choice(ONE_IN)
+                tok[0] += 1
+                t = tok[0] + 100
+                v = {f'k{t}': 'w'} if f['kind'] == 'dict' else [t] if f['kind'] == 'list' else {t}
+                t = f'k{t}' if f['kind'] == 'dict' else t
+                hist.append(['assign', x, f['name'], p, repr(v)])
+                try:
+                    if p == 'attr':
+                        setattr(objs[x], f['name'], v)
+                    else:
+                        objs[x].eSet(f['name'] if p == 'eSet-name' else fobj[f['name']], v)
+                except Exception as e:  # noqa
+                    fail('raised', f'assigning {v!r} to obj{x}.{f["name"]} ({f["type"]}) through {p} raised {type(e).__name__}: {e}')
+                    break
+                written.add((x, f['name']))
+                expect = ((x, f['name']), t, p)
+            elif r < 0.67 and cands:
+                x, f = rng.choice(cands)
+                hist.append(['del', x, f['name']])
+                try:
+                    delattr(objs[x], f['name'])
+                except Exception as e:  # noqa
+                    fail('raised', f'del obj{x}.{f["name"]} raised {type(e).__name__}: {e}')
+                    break
+                written.add((x, f['name']))
+            elif r < 0.8:
+                add_attr(rng.choice(inherits['A']))
+                st['attributes_added_at_run_time'] += 1
+                edited = True
+            elif r < 0.9:
+                new(rng.choice(['A', 'A', 'Base']))
+                st['instances_created_after_an_edit'] += edited
+            else:
+                hist.append(['read'])
+            st['ops'] += 1
+            check(expect)
+        st['cases'] += 1
+        if sample is None and state['ok'] and len(hist) > 6:
+            sample = {'scenario': 'containers', 'history': [list(h) for h in hist]}
+    out.coverage['container_cases'] = st['cases']
+    out.coverage['container_operations'] = st['ops']
+    out.coverage['container_slot_checks_three_paths_twice'] = st['slot_checks']
+    out.coverage['container_checks_on_never_assigned_container_slots'] = st['never_written_container_checks']
+    out.coverage['container_mutations_in_place'] = st['mutations_in_place']
+    out.coverage['container_attributes_added_at_run_time'] = st['attributes_added_at_run_time']
+    out.coverage['container_instances_created_after_an_edit'] = st['instances_created_after_an_edit']
+    out.coverage['container_sample'] = sample
+
+
 _run3 = run
 
 
@@ -882,3 +1492,5 @@ def run(ctx, out):   # noqa: F811
     _run3(ctx, out)
     subtree_scenarios(ctx, out)
     meta_clash_scenarios(ctx, out)
+    generic_scenarios(ctx, out)
+    container_scenarios(ctx, out)
